@@ -7,9 +7,10 @@ import common
 from common import Case
 
 TITLE = 'Admission seats one conforming client per seat and turns the others away'
-LEAN_TARGETS = ['BridgeVerif.Props.C20', 'BridgeVerif.Translated.Messages']
-AUDIT_PROPS = ['C20', 'Translated.Messages']
-REQUIRED = ['Translated.Messages.connection_line_read',
+LEAN_TARGETS = ['BridgeVerif.Props.C20', 'BridgeVerif.Translated.Messages', 'BridgeVerif.Translated.ThreadsSeatB']
+AUDIT_PROPS = ['C20', 'Translated.Messages', 'Translated.ThreadsSeatB']
+REQUIRED = ['Translated.ThreadsSeatB.seat_connect_translated', 'Translated.ThreadsSeatB.seat_connect_not_ready_translated', 'Translated.ThreadsSeatB.seat_connect_matches_connectR', 
+            'Translated.Messages.connection_line_read',
             'accept_iff_ok', 'error_is_first_failing_test', 'reject_leaves_table_unchanged', 'loop_continues_until_full',
             'one_client_per_seat', 'partners_share_team', 'teams_message_correct', 'verdicts_are_a_prefix', 'order_matters',
             'accept_loop_is_the_fold']
@@ -175,6 +176,7 @@ def run_admission(ctx, driver, atts, mode, pdesc, text_seed):
             res.append((f'att-{i}', fn))
         return res
     r = session.run_session(sc, SP.make_policy(pdesc), ctx.workdir, attempts=attempts, max_steps=400000)
+    r.scenario = sc
     return r, outs_att, texts
 
 
@@ -189,6 +191,15 @@ def check_run(ctx, driver, atts, mode, pdesc, text_seed):
     def fail(key, detail, kind='counterexample'):
         fails.append({'key': key, 'kind': kind, 'attempts': atts, 'mode': mode, 'policy': pdesc, 'text_seed': text_seed,
                       'schedule': r.schedule, 'request_texts': texts, 'diff': detail})
+    # the TRANSLATED connection threads and accept loop (Generated/PyCoreThreads.lean: SeatThread._connect / run, MainThread.run)
+    # on what the world handed the real ones: every accepted connection, seated or refused
+    if r.status == 'DONE' and not r.exceptions:
+        import session
+        import thread_check as TC
+        tdiffs, n_lean = TC.check_session(common.REPO, r, driver, bundled=(), boards=session.board_settings(r.scenario))
+        ctx.count('translated_thread_runs', n_lean)
+        for d in tdiffs:
+            fail('translated-thread-ops', d, kind='broken-correspondence')
     # the order in which the server accepted the requests = order of connection (FIFO backlog)
     order = [int(c[0].split('-')[1]) for c in r.conns if c[0].startswith('att-')]
     if mode == 'sequence' and order != sorted(order):
